@@ -224,6 +224,7 @@ def run(run, tier):
         per['forwarding'] = 'calls2v translator not merged yet'
     from . import xsim
     xsim.run_others(run, 'C05', EoN, sim, tier, per, total, 'initial_condition')
+    from . import discx; discx.part(run, tier, 'C05', props, per)
     if not props['ok']:
         run.violation('C05/proof', 'Props/C05.v no longer checks: %s' % props['log'][-400:], {'broken': 'coq/Props/C05.v', 'log': props['log']}, no_input=True)
     C.proof_coverage(run, props, total.n, min(len(total.distinct), total.nontrivial),
